@@ -12,7 +12,7 @@ import (
 )
 
 func init() {
-	props["C13"] = &propDef{extraPkgs: []string{jsonPatchPkg}, run: runC13, explanation: "Partial ('only if' direction). Decided statically on the patch validators: (K1) the numeric limits and the id pattern — len(id) > 50 rejects, len(service type) > 30 rejects, purposes longer than the 5-entry purpose table reject, ids must match the regexp literal ^[A-Za-z0-9_-]+$ compiled once; (T1) the key-type × purpose matrix extracted from the four package-level literals equals the documented matrix and the purpose table holds the five document.KeyPurpose* constants; (T2) the member-name sets of a key (required, optional, one-of) and of a replace document; (U1) every for-all loop in the validator packages rejects only inside its body (an accepting return inside such a loop validates only a prefix); (G1) per action, success lies behind each documented check for every element (for-all form through helper boundaries): array presence, id rules, duplicate ids, member rule, purposes rule, type/purpose rule, JWK rule, service id/type/endpoint rules with URI validity for a string endpoint and for every string entry of a list endpoint, also-known-as URI parse and uniqueness, replace member set, original-document id/context refusal. Not decided: the 'if' direction; what net/url accepts; JWK well-formedness beyond the presence checks. (U2) every seen-set is searched with the key expression it is filled with. Presence of a key member is tested by comma-ok lookups only; in JWK.Validate each member is demanded only of the key type it belongs to. ParsePublicKeys / ParseServices leave their entry loop only at its end. Closed set of refusals of JWK.Validate (exact: member M is empty); accessor hands back the patch's own list; validators test the payload as the document package decodes it. Replace: the document's size is no reason to refuse; JSON patch: 'path' and 'from' are judged one at a time."}
+	props["C13"] = &propDef{extraPkgs: []string{jsonPatchPkg}, run: runC13, explanation: "Partial ('only if' direction). Decided statically on the patch validators: (K1) the numeric limits and the id pattern — len(id) > 50 rejects, len(service type) > 30 rejects, purposes longer than the 5-entry purpose table reject, ids must match the regexp literal ^[A-Za-z0-9_-]+$ compiled once; (T1) the key-type × purpose matrix extracted from the four package-level literals equals the documented matrix and the purpose table holds the five document.KeyPurpose* constants; (T2) the member-name sets of a key (required, optional, one-of) and of a replace document; (U1) every for-all loop in the validator packages rejects only inside its body (an accepting return inside such a loop validates only a prefix); (G1) per action, success lies behind each documented check for every element (for-all form through helper boundaries): array presence, id rules, duplicate ids, member rule, purposes rule, type/purpose rule, JWK rule, service id/type/endpoint rules with URI validity for a string endpoint and for every string entry of a list endpoint, also-known-as URI parse and uniqueness, replace member set, original-document id/context refusal. Not decided: the 'if' direction; what net/url accepts; JWK well-formedness beyond the presence checks. (U2) every seen-set is searched with the key expression it is filled with. Presence of a key member is tested by comma-ok lookups only; in JWK.Validate each member is demanded only of the key type it belongs to. ParsePublicKeys / ParseServices leave their entry loop only at its end. Closed set of refusals of JWK.Validate (exact: member M is empty); accessor hands back the patch's own list; validators test the payload as the document package decodes it. Replace: the document's size is no reason to refuse; JSON patch: 'path' and 'from' are judged one at a time. The JSON-patch validator reads only path / from / op of an operation."}
 }
 
 func constStringsOfAlloc(c *Ctx, a *ssa.Alloc) []string {
@@ -990,6 +990,39 @@ func (c *Ctx) validatorNoForeignRefusalsRule(rule string) {
 				pairs = append(pairs, c.pos(iff.Pos())+": "+short(g.String())+" decides on "+p)
 			}
 		})
+	}
+	// … and it looks at the pointers only: of an operation's members it reads "path" and "from" (and "op" to tell the
+	// kinds apart); which other members an operation must carry ("value" for add / replace / test, none for move / copy /
+	// remove) is the library's business — a demand of its own refuses operations the constructor builds from valid input
+	{
+		var other []string
+		nk := 0
+		for _, g := range c.reachableModuleFuncs([]*ssa.Function{jv}) {
+			if pkgPathOf(g) != modPkg+pPV {
+				continue
+			}
+			forEachInstr(g, func(in ssa.Instruction) {
+				lk, ok := in.(*ssa.Lookup)
+				if !ok {
+					return
+				}
+				mt, isM := lk.X.Type().Underlying().(*types.Map)
+				if !isM || !strings.HasSuffix(mt.Elem().String(), "json.RawMessage") {
+					return
+				}
+				k, isK := lk.Index.(*ssa.Const)
+				if !isK {
+					return
+				}
+				nk++
+				switch unquote(c.Path(k, nil)) {
+				case "path", "from", "op":
+				default:
+					other = append(other, c.pos(lk.Pos())+": "+short(g.String())+" reads member "+c.Path(k, nil)+" of an operation")
+				}
+			})
+		}
+		c.Check(rule, "json-patch:operation-members-read", nk >= 2 && len(other) == 0, jv.Pos(), fmt.Sprintf("%d member reads of RFC 6902 operations in the validator; only \"path\", \"from\" and \"op\"", nk), other...)
 	}
 	c.Check(rule, "json-patch:pointers-judged-one-at-a-time", n >= 2 && len(pairs) == 0, jv.Pos(), fmt.Sprintf("%d functions of the JSON-patch validator; none branches on a condition over both \"path\" and \"from\"", n), pairs...)
 }
